@@ -1,6 +1,8 @@
 """C07 - Every node's cash ledger reconciles"""
 from pyvc.runner import func
 
+UPDATE_ALL = [func("bt.core.StrategyBase.update", variant=v) for v in ("flat", "paper", "nested", "nested-paper")]
+
 ID = "C07"
 META = {
     "assumptions": ['A-REAL', 'A-COMM', 'A-T', 'A-IND', 'A-DATA-NONE', 'A-CYTHON', 'A-SOLVER', 'A-ENGINE'],
@@ -8,7 +10,7 @@ META = {
 }
 MANIFEST_ENTRY = {
     "level_text": 'Deductive proof of the per-trade and per-update ledger clauses for all inputs; the per-date reconciliation is their sum over the operations of the date.',
-    "level_note": "Reals not floats; commission uninterpreted (A-COMM); the per-date sum is an induction over operations stated in DESIGN.md; update variant 'flat'.",
+    "level_note": "Reals not floats; commission uninterpreted (A-COMM); the per-date sum is an induction over operations stated in DESIGN.md.",
     "technique": "contract-based deductive verification: VCs from the real AST (pyvc) discharged by z3/cvc5; loop invariants with ghost sums; lemmas over contract clauses",
 }
 
@@ -19,7 +21,7 @@ def tasks(tier, seed):
         func("bt.core.SecurityBase.outlay"),
         func("bt.core.StrategyBase.adjust"),
         func("bt.core.SecurityBase.allocate"),
-        func("bt.core.StrategyBase.update", variant="flat"),
+        *UPDATE_ALL,
         func("bt.core.SecurityBase.update"),
         func("bt.core.FixedIncomeSecurity.update"),
         func("bt.core.CouponPayingSecurity.update"),
